@@ -450,6 +450,9 @@ class QubitCircuit:
             else:
                 temp.add_measurement(circuit_op)
 
+        # the reversed circuit gets its own gate objects
+        temp.gates = deepcopy(temp.gates)
+
         return temp
 
     def run(
